@@ -14,7 +14,9 @@ Case (plain literal, replayable):
      (BaseException raised by enter) and pseudo steps (ops, "oncease") / (ops, "onexit") = scheduler ops the doer
      issues from its cease / exit action (re-entrant forced shutdown);
      op ("xextend", [gid, k..]) = the doer calls extend() on ANOTHER scheduler (DoDoer gid, with gid's pool);
-     a 7th case field `extras` = (("cleanfail", [ids]),): the clean action of those doers (leaf or DoDoer) raises.
+     a 7th case field `extras` = (("cleanfail", [ids]), ("supervisors", [sids])): the clean action of the `cleanfail` doers
+     (leaf or DoDoer) raises; the `supervisors` (DoDoer ids, 0 = the Doist) are scheduler SUBCLASSES whose recur() override
+     catches an Exception raised by a child and carries on (implementation-side only).
   Ops act on the doer's OWN scheduler (the Doist for top level / Doist pool, the enclosing DoDoer otherwise);
   extend indices refer to that scheduler's pool.  The Doist has id 0.
 
@@ -121,6 +123,8 @@ CLOSE_OUTS = ("oncease", "onexit")
 
 def unmodelled(case):
     """cases the Lean model does not cover: ops issued from close actions, BaseException raised by an enter"""
+    if extras_of(case, "supervisors") or extras_of(case, "cancel"):
+        return True
     for s, _, _ in all_specs(case):
         if s[0] == "leaf":
             if has_op(s, "xextend"):
@@ -249,6 +253,8 @@ class Rec:
         self.pools = {}     # scheduler id -> [objects]
         self.sched = {}     # scheduler id -> scheduler object
         self.cleanfail = set()   # ids whose clean action raises
+        self.clock = None        # SimClock of a real=True run
+        self.supervisors = set() # scheduler ids whose recur() override catches the exceptions of their children
         self.rosters = {}        # scheduler id -> the very list object handed to DoDoer(doers=) / do(doers=): the caller's
                                  # own roster, which the caller keeps up to date (it must NOT be aliased by the scheduler)
         self.dead = False   # set once a Runaway has been reported: later events (GC closes) are dropped
@@ -458,6 +464,11 @@ def build_group(rec, spec):
 
         def recur(self, tyme, deeds=None):
             rec.ev(gid, "recur" if tyme == self.tyme else "recurBad", self.tyme)
+            if gid in rec.supervisors:      # a supervising DoDoer: a child's Exception is handled here, the others go on
+                try:
+                    return super().recur(tyme, deeds=deeds)
+                except Exception:
+                    return False
             return super().recur(tyme, deeds=deeds)
 
         def clean(self):
@@ -500,7 +511,22 @@ def build(rec, spec, sid):
     return o
 
 
-def make_doist(rec, tock, start, limit):
+class SimClock:
+    """scripted wall clock for real=True runs: time.time() reads it, time.sleep(d) advances it by d; `overrun` seconds
+    are lost inside the recur of cycle `at` (a doer that blocks)"""
+    def __init__(self, at, overrun):
+        self.now, self.at, self.overrun = 1000.0, at, overrun
+
+    def time(self):
+        return self.now
+
+    def sleep(self, d):
+        if d < 0:
+            raise ValueError("sleep length must be non-negative")
+        self.now += d
+
+
+def make_doist(rec, tock, start, limit, real=False):
     from hio.base import doing
 
     class TDoist(doing.Doist):
@@ -508,6 +534,14 @@ def make_doist(rec, tock, start, limit):
             rec.cycles += 1
             if rec.cycles > MAX_CYCLES and not rec.dead:
                 raise Runaway("too many cycles")
+            if rec.clock is not None and rec.cycles == rec.clock.at:
+                rec.clock.now += rec.clock.overrun      # this pass takes too long on the wall clock
+            if 0 in rec.supervisors:        # a supervising Doist subclass
+                try:
+                    return super().recur(deeds=deeds)
+                except Exception:
+                    self.tick()             # the interrupted pass did not reach its tick
+                    return None
             return super().recur(deeds=deeds)
 
         def exit(self, deeds=None):
@@ -525,7 +559,58 @@ def make_doist(rec, tock, start, limit):
             super().remove(doers)
             rec.ev(0, "rmEnd", self.tyme)
 
-    return TDoist(tock=tock, tyme=start, limit=limit, real=False)
+    return TDoist(tock=tock, tyme=start, limit=limit, real=real)
+
+
+def run_ado_cancelled(doist, doers, k, kind):
+    """drive doist.ado() from a harness event loop and stop it from OUTSIDE after k loop steps:
+    kind 1 = task.cancel(); 2 = cancel, and a second cancel at the next loop step (watchdog + shutdown sweep);
+    3 = no loop: the coroutine is stepped by hand and then close()d.  Returns the `raised` tag."""
+    import asyncio
+    if kind == 3:
+        coro = doist.ado(doers=doers)
+        try:
+            for _ in range(k):
+                coro.send(None)
+        except StopIteration:
+            return "-"
+        try:
+            coro.close()
+        except RuntimeError as ex:
+            return "other:RuntimeError"
+        return "closed"
+    loop = asyncio.SelectorEventLoop()
+    try:
+        task = loop.create_task(doist.ado(doers=doers))
+
+        def step():
+            loop.call_soon(loop.stop)
+            loop.run_forever()
+        for _ in range(k):
+            step()
+        if task.done():
+            ex = task.exception()
+            if ex is not None:
+                raise ex
+            return "-"
+        task.cancel()
+        step()
+        if kind == 2 and not task.done():
+            task.cancel()
+        for _ in range(5):
+            if task.done():
+                break
+            step()
+        if not task.done():
+            return "other:TaskStillRunning"
+        if task.cancelled():
+            return "cancelled"
+        ex = task.exception()
+        if ex is not None:
+            raise ex
+        return "-"
+    finally:
+        loop.close()
 
 
 def run_program(case, mode="do"):
@@ -534,7 +619,11 @@ def run_program(case, mode="do"):
     _, tock, start, limit, pool, specs = case[:6]
     rec = Rec()
     rec.cleanfail = set(extras_of(case, "cleanfail"))
-    doist = make_doist(rec, tock, start, limit)
+    rec.supervisors = set(extras_of(case, "supervisors"))
+    realx = extras_of(case, "real")       # [cycle, overrun]: run with real=True under a scripted wall clock
+    if realx:
+        rec.clock = SimClock(realx[0], realx[1])
+    doist = make_doist(rec, tock, start, limit, real=bool(realx))
     rec.sched[0] = doist
     doers = [build(rec, s, 0) for s in specs]
     rec.rosters[0] = doers
@@ -543,9 +632,16 @@ def run_program(case, mode="do"):
     n = None
     gc_was = gc.isenabled()
     gc.disable()
+    import time as _time
+    _saved = (_time.time, _time.sleep)
+    if rec.clock is not None:
+        _time.time, _time.sleep = rec.clock.time, rec.clock.sleep
     try:
         try:
-            if mode == "do":
+            cancel = extras_of(case, "cancel")
+            if cancel:
+                raised = run_ado_cancelled(doist, doers, cancel[0], cancel[1])
+            elif mode == "do":
                 doist.do(doers=doers)
             else:
                 import asyncio
@@ -573,6 +669,7 @@ def run_program(case, mode="do"):
             raised = "other:Runaway"
         gc.collect(1)      # objects created during this run are young (gc was disabled); older ones need no traversal
     finally:
+        _time.time, _time.sleep = _saved
         if gc_was:
             gc.enable()
     ids = sorted(rec.obj)
@@ -597,9 +694,9 @@ class _Gen:
         self.tock = rng.choice(TOCKS)
         # "selfrm": pool doers may remove themselves while running and be extended again (known finding C01-K2)
         self.p_ops = {"mixed": 0.15, "ops": 0.45, "faults": 0.08, "time": 0.0, "plain": 0.0, "selfrm": 0.5,
-                      "bexc": 0.12, "closeops": 0.3, "benter": 0.12, "actfault": 0.1, "xext": 0.0, "lastop": 0.1}[profile]
+                      "bexc": 0.12, "closeops": 0.3, "benter": 0.12, "actfault": 0.1, "xext": 0.0, "lastop": 0.1, "superv": 0.0, "oddtock": 0.05, "cancel": 0.05}[profile]
         self.p_fault = {"mixed": 0.08, "ops": 0.05, "faults": 0.22, "time": 0.0, "plain": 0.0, "selfrm": 0.03,
-                        "bexc": 0.2, "closeops": 0.06, "benter": 0.1, "actfault": 0.03, "xext": 0.0, "lastop": 0.0}[profile]
+                        "bexc": 0.2, "closeops": 0.06, "benter": 0.1, "actfault": 0.03, "xext": 0.0, "lastop": 0.0, "superv": 0.25, "oddtock": 0.05, "cancel": 0.04}[profile]
         self.always = False
         # "lagging" programs: many yields shorter than the tock, then longer non-multiples (cumulative due tymes matter)
         self.lag = profile in ("time", "plain", "mixed") and rng.random() < 0.4
@@ -610,6 +707,9 @@ class _Gen:
 
     def ytock(self):
         r, t = self.rng, self.tock
+        if self.profile == "oddtock" and r.random() < 0.5:
+            # odd numerics a doer may yield: negative (due at once, due tyme moves back), -0.0 (asap), -inf, denormal
+            return r.choice([-t, -t / 2, -3 * t, -0.1, -0.0, float("-inf"), 5e-324, 1e-300, -1e-300])
         if self.lag:
             return r.choice([t / 2, t / 2, t / 4, 0.3 * t, 0.75 * t, 2.5 * t, 1.75 * t, 3.25 * t, 0.0, t])
         k = r.random()
@@ -733,6 +833,8 @@ def gen_case(rng, profile="mixed"):
         nk, npool = rng.choice([1, 1, 2, 3]), rng.choice([1, 1, 2])
     if profile == "xext":
         return gen_xext(rng, g)
+    if profile == "superv":
+        return gen_superv(rng, g)
     specs, pool = g.members(0, nk, npool)
     t = g.tock
     limits = [0.0, t / 2, t, 2.5 * t, 3 * t, 0.3, 1.0, -2 * t, 7 * t, 12 * t]
@@ -742,6 +844,9 @@ def gen_case(rng, profile="mixed"):
         limit = rng.choice(limits)
     else:
         limit = None
+    if profile == "cancel":
+        # ado() stopped from outside: cancel at loop step k (single / double) or close() of the hand-stepped coroutine
+        return ("run", t, rng.choice(STARTS), limit, pool, specs, (("cancel", [rng.choice([1, 2, 3, 4, 6]), rng.choice([1, 2, 2, 3])]),))
     if profile == "actfault":
         # (a Doer instance assigns self.done before its clean() runs, a generator function has no done yet: the model
         #  follows the function shapes, so leaves whose clean raises are function shaped; DoDoers are fine)
@@ -750,6 +855,21 @@ def gen_case(rng, profile="mixed"):
             return ("run", t, rng.choice(STARTS), limit, pool, specs)
         return ("run", t, rng.choice(STARTS), limit, pool, specs, (("cleanfail", sorted(rng.sample(ids, min(len(ids), rng.choice([1, 1, 2, 3]))))),))
     return ("run", t, rng.choice(STARTS), limit, pool, specs)
+
+
+def gen_superv(rng, g):
+    """supervising schedulers: DoDoer / Doist subclasses whose recur() catches a child's Exception and carries on; several
+    handled failures in different cycles, then a forced close (limit / fatal BaseException / error in an unsupervised part)"""
+    t = g.tock
+    nk = rng.choice([2, 3, 4])
+    specs, pool = g.members(0, nk, 0)
+    if not any(s[0] == "group" for s in specs):
+        gid = g.nid()
+        kids, _ = g.members(1, rng.choice([2, 3, 4]), 0)
+        specs.insert(rng.randrange(len(specs) + 1), ("group", gid, 0.0, rng.random() < 0.3, kids, []))
+    sids = [s[1] for s, _, _ in walk(specs, 0) if s[0] == "group"]
+    sup = sorted(set(rng.sample(sids, rng.choice([1, len(sids)])) + ([0] if rng.random() < 0.4 else [])))
+    return ("run", t, rng.choice(STARTS), rng.choice([3 * t, 5 * t, 7 * t, 12 * t]), [], specs, (("supervisors", sup),))
 
 
 def gen_xext(rng, g):
@@ -831,6 +951,8 @@ def shrink_case(case):
         for c in shrink_case(case[:6]):
             yield c + (ex,)
         for k, v in ex:
+            if k in ("cancel", "real"):      # (loop step, kind) / (cycle, overrun): not lists of ids
+                continue
             for n in range(len(v)):
                 yield case[:6] + (((k, list(v[:n]) + list(v[n + 1:])),),) if len(v) > 1 else case[:6]
         return
@@ -856,6 +978,10 @@ def case_valid(case):
         return False
     if limit is None and has_always(list(specs) + list(pool)):
         return False
+    if len(case) > 6 and any(k == "cancel" and len(v) != 2 for k, v in case[6]):
+        return False
+    if limit is None and extras_of(case, "supervisors"):
+        return False      # after a handled failure the stale pass marker keeps the deque non-empty: only a limit ends the run
     if limit is None and any(has_op(x, "extend") for x in list(specs) + list(pool)) and any(has_op(x, "remove") for x in list(specs) + list(pool)):
         return False
     sp = all_specs(case)
@@ -973,7 +1099,7 @@ class SchedCheck(core.Check):
                    "py3.12: generator.close() returns None; Doer/DoDoer return self.done on close, so 3.13 semantics assign the same value",
                    "three model generations, tied by Lean theorems (model2_is_model_on_old_scripts, model3_is_model2_without_close_ops): Model (plain scripts), Model2 (exception kinds Exception/KeyboardInterrupt/SystemExit at steps and at enters; clean actions that raise), Model3 (scheduler ops issued from cease/exit actions, scheduler state threaded through the close loop, close fuel 400); the driver answers each case with the oldest model that has its script data",
                    "leaves whose clean action raises are function shaped in the generators (a Doer instance has assigned self.done before clean() runs, a generator function has not; the model follows the functions)",
-                   "IMPLEMENTATION-SIDE ONLY (driver answers (unmodelled); oracle on the real run; ~5% of the C01/C02 cases): extend() called on ANOTHER scheduler (an idle always-DoDoer extended by a sibling), exceptions raised by ops inside a close action, close-time ops of a doer that ends during its own enter — no Lean theorem covers these"]
+                   "IMPLEMENTATION-SIDE ONLY (driver answers (unmodelled); oracle on the real run; ~5% of the C01/C02 cases): extend() called on ANOTHER scheduler (an idle always-DoDoer extended by a sibling), supervising scheduler subclasses whose recur() override catches a child's exception (stale pass marker), exceptions raised by ops inside a close action, close-time ops of a doer that ends during its own enter — no Lean theorem covers these"]
 
     def corpus(self):
         return list(CORPUS)
@@ -1229,9 +1355,18 @@ def run_sequence(case):
     try:
         for mode, st, lm, pool, specs in calls:
             rec.cycles = 0
+            stray = None
+            if mode.endswith("+x"):
+                # the caller extends the idle Doist with a doer BEFORE this call: it is entered at once and sits in .deeds;
+                # do(doers=...) then starts from a fresh deque, so that stray doer is dropped (closed) and takes no part in the run
+                mode = mode[:-2]
+                stray = 9000 + len(out)
+                doist.extend([build(rec, ("leaf", stray, "doify", "ok", [([], ("yield", 0.0))] * 3), 0)])
             first = len(rec.log)
             doers = [rec.obj[s[1]] if s[1] in rec.obj else build(rec, s, 0) for s in specs]
             rec.rosters[0] = doers
+            if not doers:      # the empty argument in its three usual forms
+                doers = [[], (), iter(())][len(out) % 3]
             rec.pools[0] = [rec.obj[s[1]] if s[1] in rec.obj else build(rec, s, 0) for s in pool]
             kw = {}
             if st is not None:
@@ -1269,7 +1404,8 @@ def run_sequence(case):
             gc.collect(1)
             ids = sorted(x[1] for x, _, _ in all_specs(("run", tock, 0.0, None, pool, specs)))
             leaf0 = Leaf(rec, ("leaf", -1, "doify", "ok", []), 0)
-            out.append(dict(trace=rec.log[first:n], late=rec.log[n:], flags=[(i, bool(rec.obj[i].done)) for i in ids],
+            run_trace = [e for e in rec.log[first:n] if not (e[0] == stray and e[1] != "recur")]
+            out.append(dict(trace=run_trace, late=rec.log[n:], flags=[(i, bool(rec.obj[i].done)) for i in ids],
                             done=bool(doist.done), done_raw=doist.done, tyme=doist.tyme, raised=raised, doers=leaf0.ids_of(doist.doers)))
             if rec.dead:
                 break
@@ -1294,7 +1430,9 @@ def gen_runs(rng):
     limit0 = rng.choice([None, None, 3 * t, 0.0])
     calls, lim, progs = [], limit0, []
     for k in range(rng.choice([2, 2, 3, 4])):
-        if progs and rng.random() < 0.4:
+        if rng.random() < 0.2:
+            pool, specs = [], []                                 # an explicitly EMPTY doers argument: the run has no doers at all
+        elif progs and rng.random() < 0.4:
             pool, specs = rng.choice(progs)                      # same doer objects again
         else:
             g = _Gen(rng, rng.choice(["time", "plain", "faults0"]) if False else rng.choice(["time", "plain"]))
@@ -1310,15 +1448,28 @@ def gen_runs(rng):
             lm = eff = 3 * t
         lim = eff
         st = rng.choice([None, None, None, 0.0, 2.5, 10.0])
-        calls.append((rng.choice(["do", "ado"]), st, lm, pool, specs))
+        calls.append((rng.choice(["do", "ado"]) + ("+x" if rng.random() < 0.2 else ""), st, lm, pool, specs))
     return ("runs", t, start0, limit0, calls)
 
 
 # round-2 seeded classes (implementation-side only): a clean action that raises; an idle DoDoer(always) extended by a sibling
 CORPUS_R2 = [
+    # supervising DoDoer / Doist: two handled failures in different cycles then the limit; one handled failure then a fatal one in mid cycle
+    ("run", 1.0, 0.0, 6.0, [], [_lf(1, [_y()] * 9), ("group", 9, 0.0, False, [_lf(2, [_y(), ([], "raise")]), _lf(3, [_y()] * 9, "plain"), _lf(4, [_y(), _y(), _y(), ([], "raise")], "genrecur"), _lf(5, [_y()] * 9)], [])], (("supervisors", [9]),)),
+    ("run", 1.0, 0.0, 9.0, [], [("group", 9, 0.0, False, [_lf(2, [_y(), ([], "raise")]), _lf(3, [_y()] * 9), _lf(4, [_y(), _y(), _y(), ([], "kbint")]), _lf(5, [_y()] * 9, "bound")], [])], (("supervisors", [9]),)),
+    ("run", 1.0, 0.0, 5.0, [], [_lf(1, [_y(), ([], "raise")]), _lf(2, [_y()] * 9), _lf(3, [_y(), _y(), ([], "raise")], "doize"), _lf(4, [_y()] * 9, "plain")], (("supervisors", [0]),)),
     ("run", 1.0, 0.0, 9.0, [], [_lf(1, [_y()] * 6), ("group", 9, 0.0, False, [_lf(2, [_y()]), _lf(3, [_y(), _y()], "plain")], []), _lf(4, [_y()] * 6)], (("cleanfail", [9]),)),
     ("run", 1.0, 0.0, 9.0, [], [("group", 8, 0.0, False, [("group", 9, 0.0, False, [_lf(2, [_y()])], []), _lf(3, [_y()] * 5)], []), _lf(4, [_y()] * 6, "genrecur")], (("cleanfail", [9, 2]),)),
     ("run", 1.0, 0.0, 9.0, [], [_lf(1, [_y()] * 6, "bound"), _lf(2, [_y(), _y()], "doize"), _lf(3, [_y()] * 6)], (("cleanfail", [2]),)),
     ("run", 1.0, 0.0, 9.0, [], [("group", 9, 0.0, True, [_lf(1, [_y()])], [_lf(7, [_y()] * 5)]), _lf(2, [_y(), _y(), _y(), ([("xextend", [9, 0])], "raise")])]),
     ("run", 1.0, 0.0, 4.0, [], [_lf(1, [_y()] * 9), ("group", 9, 0.0, True, [], [_lf(7, [_y(2.0)] * 5, "plain")]), _lf(2, [_y(), _y(), _y(), ([("xextend", [9, 0])], ("yield", 0.0)), _y(), _y()], "genrecur")]),
+]
+
+
+# regression for fix 689f99b on fix/sched (enter loops iterate over a copy of .doers): a doer that finishes at enter extends from its
+# exit action while the scheduler is still entering.  In C01.corpus() (the fix is in /repo as 5414c1a); on a tree without it doer 7 is entered twice
+# (C01 clause entered-again-while-still-running).
+CORPUS_ENTERLOOP = [
+    ("run", 1.0, 0.0, 4.0, [_lf(7, [_y()] * 3)], [_lf(1, [([("extend", [0])], "onexit")], "doify", ("done", True)), _lf(2, [_y()] * 3)]),
+    ("run", 1.0, 0.0, 4.0, [], [("group", 9, 0.0, False, [_lf(1, [([("extend", [0])], "onexit")], "plain", ("done", True)), _lf(2, [_y()] * 3)], [_lf(7, [_y()] * 3, "bound")])]),
 ]
